@@ -262,6 +262,23 @@ def setWithIndex (v : Var) (base : Arr) (k : Int) (valStr : Str) : Res Var :=
     | .ok a' => .ok ⟨.indexed, true, v.str, a'⟩
     | .panic => .panic
 
+def optStr : Option Str → Str
+  | some s => s
+  | none => []
+
+/-- `setVarWithIndex` with `appendElem` (`name[i]+=s`; `assignVal` hands over just `s`): the
+    current element at the resolved index, if any, is put in front of the value — found with
+    the same code shape as `indexedVal` (binary search in `indexes`, or `k < len(list)`). -/
+def appendWithIndex (v : Var) (base : Arr) (k : Int) (s : Str) : Res Var :=
+  let k' := if k < 0 then k + (indexedMax base + 1) else k
+  if k' < 0 then .ok v
+  else match indexedVal base k' with
+    | .panic => .panic
+    | .ok cur =>
+      match setElem base k' (optStr cur ++ s) with
+      | .ok a' => .ok ⟨.indexed, true, v.str, a'⟩
+      | .panic => .panic
+
 /-- `assignVal`'s `a+=s` on an indexed array: "Appends to the element at index 0". -/
 def appendZero (a : Arr) (s : Str) : Res Arr :=
   match a.list with
@@ -292,17 +309,7 @@ def applyOp (v : Var) : Op → Res Var
     match v.kind with
     | .indexed => liftArr v (appendZero v.arr s)
     | _ => .ok ⟨.str, true, v.str ++ s, v.arr⟩
-  | .appElem i s =>
-    match v.kind with
-    | .indexed =>
-      -- assignVal ignores `as.Index`: it appends `s` to element 0 of a *clone* of the list (so
-      -- that work is lost, apart from a possible panic on a malformed representation) and returns
-      -- the array variable, whose stale `Str` then becomes the value setVarWithIndex stores at
-      -- index i of the caller's `prev`.
-      match appendZero v.arr s with
-      | .ok _ => setWithIndex v v.arr i v.str
-      | .panic => .panic
-    | _ => setWithIndex v (baseArr v) i (v.str ++ s)
+  | .appElem i s => appendWithIndex v (baseArr v) i s
   | .unsetElem i =>
     match v.kind with
     | .indexed =>
@@ -370,22 +377,45 @@ def specLit (m : SMap) (index : Int) : List Elem → SMap
     if j < 0 then specLit m index rest
     else specLit (m.insert j v) (j + 1) rest
 
-def optStr : Option Str → Str
-  | some s => s
-  | none => []
+/-- The specification's view of a shell variable: bash distinguishes an unset variable, a scalar
+    and an array (a scalar reads like the one-element array `{0 ↦ s}`, but `unset 's[i]'` and
+    `s=v` treat it differently), so the map comes with that tag (`Kind.unknown` = unset,
+    `Kind.str` = scalar, `Kind.indexed` = array). -/
+structure SVar where
+  kind : Kind
+  m : SMap
+  deriving DecidableEq, Repr
 
-/-- bash semantics of every operation on the map. -/
-def specOp (m : SMap) : Op → SMap
-  | .assign es => specLit [] 0 es
-  | .append es => specLit m (m.maxKey + 1) es
-  | .setElem i s => let j := resolve m i; if j < 0 then m else m.insert j s
-  | .appElem i s => let j := resolve m i; if j < 0 then m else m.insert j (optStr (m.lookup j) ++ s)
-  | .setStr s => m.insert 0 s
-  | .appStr s => m.insert 0 (optStr (m.lookup 0) ++ s)
-  | .unsetElem i => let j := resolve m i; if j < 0 then m else m.erase j
-  | .unsetAll => []
+def SVar.unset : SVar := ⟨.unknown, []⟩
 
-def specRun (m : SMap) (ops : List Op) : SMap := ops.foldl specOp m
+/-- bash semantics of every operation. -/
+def specOp (x : SVar) : Op → SVar
+  | .assign es => ⟨.indexed, specLit [] 0 es⟩
+  | .append es => ⟨.indexed, specLit x.m (x.m.maxKey + 1) es⟩
+  | .setElem i s =>
+    let j := resolve x.m i
+    if j < 0 then x else ⟨.indexed, x.m.insert j s⟩
+  | .appElem i s =>
+    let j := resolve x.m i
+    if j < 0 then x else ⟨.indexed, x.m.insert j (optStr (x.m.lookup j) ++ s)⟩
+  | .setStr s =>
+    match x.kind with
+    | .indexed => ⟨.indexed, x.m.insert 0 s⟩
+    | _ => ⟨.str, [(0, s)]⟩
+  | .appStr s =>
+    match x.kind with
+    | .indexed => ⟨.indexed, x.m.insert 0 (optStr (x.m.lookup 0) ++ s)⟩
+    | _ => ⟨.str, [(0, optStr (x.m.lookup 0) ++ s)]⟩
+  | .unsetElem i =>
+    match x.kind with
+    | .indexed =>
+      let j := resolve x.m i
+      if j < 0 then x else ⟨.indexed, x.m.erase j⟩
+    | .str => if i = 0 then SVar.unset else x     -- "not an array variable" for any other subscript
+    | .unknown => x
+  | .unsetAll => SVar.unset
+
+def specRun (x : SVar) (ops : List Op) : SVar := ops.foldl specOp x
 
 /-- `${a[i]}`. -/
 def specRead (m : SMap) (i : Int) : ReadRes :=
@@ -423,11 +453,13 @@ def Arr.abs (a : Arr) : SMap :=
   | some ix => ix.zip a.list
 
 /-- A scalar is the one-element map `{0 ↦ s}`, an unset variable the empty map. -/
-def Var.abs (v : Var) : SMap :=
+def Var.absMap (v : Var) : SMap :=
   match v.kind with
   | .unknown => []
   | .str => [(0, v.str)]
   | .indexed => v.arr.abs
+
+def Var.abs (v : Var) : SVar := ⟨v.kind, v.absMap⟩
 
 def Increasing (l : List Int) : Prop := l.Pairwise (· < ·)
 
@@ -443,25 +475,5 @@ structure Var.WF (v : Var) : Prop where
   arr : v.arr.WF
   zero : v.kind = .unknown → v.str = []
   isset : v.kind ≠ .unknown → v.set = true
-
-/-! ### Where the code is known to differ from bash (the recorded finding), as a decidable side
-    condition on a run -/
-
-/-- The operation is outside the recorded divergence when applied to `v`:
-    * `a[i]+=s` only on an unset variable (finding C33-elem-append);
-    * `unset 's[-n]'` not on a scalar (bash and the code both refuse; a scalar is not quite the
-      map `{0 ↦ s}` there). -/
-def opOK (v : Var) : Op → Bool
-  | .appElem _ _ => v.kind == .unknown
-  | .unsetElem i => v.kind != .str || decide (0 ≤ i)
-  | _ => true
-
-def runOK (v : Var) : List Op → Bool
-  | [] => true
-  | op :: ops =>
-    opOK v op &&
-      match applyOp v op with
-      | .ok v' => runOK v' ops
-      | .panic => false
 
 end ShVerif.C33
